@@ -315,3 +315,65 @@ Example C04_sender_glue_example :
   Forall lateF (strs g).
 Proof. exact sender_example. Qed.
 Print Assumptions C04_sender_glue_example.
+
+(** ** The connection glue (round 4): which transport parameter becomes a stream's send window —
+    model FlowCtl/ConnGlue.v of connection.go (restoreTransportParameters, handleTransportParameters,
+    applyTransportParameters, newFlowController, handleFrame MAX_DATA / MAX_STREAM_DATA,
+    dropEncryptionLevel(0-RTT)) + streams_map.go HandleTransportParameters, tied to the code by the
+    connglue unit on a real constructed Conn. *)
+From V Require Import FlowCtl.ConnGlue FlowCtl.ConnGlueProofs.
+
+(** RFC 9000, 18.2, for both perspectives: a stream WE initiate starts with the peer's
+    initial_max_stream_data_bidi_remote (unidirectional: _uni), a bidirectional stream the PEER
+    initiates with the peer's initial_max_stream_data_bidi_local. *)
+Theorem C04_initial_send_window_rfc_table : forall p n,
+  init_send_window true (4 * n) p = tp_br p /\
+  init_send_window true (4 * n + 1) p = tp_bl p /\
+  init_send_window true (4 * n + 2) p = tp_uni p /\
+  init_send_window false (4 * n + 1) p = tp_br p /\
+  init_send_window false (4 * n) p = tp_bl p /\
+  init_send_window false (4 * n + 3) p = tp_uni p.
+Proof. exact init_send_window_rfc_table. Qed.
+Print Assumptions C04_initial_send_window_rfc_table.
+
+(** the same function seeds the SendStream-level composition (SendGlue): a stream created with it
+    has exactly that limit, so C04_sender_glue_within_credit bounds it by the class limit until a
+    MAX_STREAM_DATA raises it (C04_sender_glue_limits_advertised). *)
+Theorem C04_sender_glue_initial_window_is_class_limit : forall client sid rsa p cw,
+  fcWindow (SendStream.Model.init sid rsa (init_send_window client sid p) cw) = init_send_window client sid p.
+Proof. reflexivity. Qed.
+Print Assumptions C04_sender_glue_initial_window_is_class_limit.
+
+(** All histories of the connection glue ([cop_ok]: wire values and write sizes are >= 0): every
+    stream stays within the largest limit the peer advertised for its class or in a
+    MAX_STREAM_DATA ([g_lims], computed from the ops alone), all streams together within the
+    largest initial_max_data / MAX_DATA. *)
+Theorem C04_connglue_within_peer_limit : forall client ops, Forall cop_ok ops ->
+  let c := fst (cgrun (cg_init client) (ConnGlueProofs.mkGh [] 0) ops) in
+  let g := snd (cgrun (cg_init client) (ConnGlueProofs.mkGh [] 0) ops) in
+  Forall2 (fun s l => 0 <= bytesSent (cs_fc s) <= l) (cc_streams c) (g_lims g) /\
+  sumf fSentC (cc_streams c) = bytesSent (cc_conn c) /\ bytesSent (cc_conn c) <= g_clim g.
+Proof. exact connglue_within_peer_limit. Qed.
+Print Assumptions C04_connglue_within_peer_limit.
+
+Example C04_connglue_example :
+  Forall cop_ok cg_ex /\
+  snd (crun (cg_init true) cg_ex) =
+    [[0]; [0]; [1; 0]; [1; 2]; [1; 1]; [300]; [300]; [300]; [3; 30; 60; 100; 3; 0; 30; 1; 60; 2; 100; 0];
+     [0]; [0]; [0]; [3; 150; 151; 152; 3; 0; 150; 1; 151; 2; 152; 0]; [3; -1; -1; -1; 0; 0]] /\
+  g_lims (snd (cgrun (cg_init true) (ConnGlueProofs.mkGh [] 0) cg_ex)) = [150; 151; 152].
+Proof. exact connglue_example. Qed.
+Print Assumptions C04_connglue_example.
+
+(** one stream's share of a drain: if it still has data while the connection has credit left, it
+    stopped EXACTLY at its window; a STREAM_DATA_BLOCKED carries exactly that window (= the offset
+    reached) and is remembered, so the same value is not reported by the next drain. *)
+Theorem C04_connglue_blocked_at_limit : forall s conn l s1 c1 e blk,
+  drain_stream s conn = (s1, c1, e, blk) -> SOK s l -> bytesSent conn <= sendWindow conn ->
+  (0 < cs_pending s1 -> 0 < b_sendWindowSize c1 -> bytesSent (cs_fc s1) = sendWindow (cs_fc s1)) /\
+  (blk <> -1 -> blk = sendWindow (cs_fc s1) /\ bytesSent (cs_fc s1) = blk /\
+                lastBlockedAt (cs_fc s) <> blk /\ lastBlockedAt (cs_fc s1) = blk) /\
+  (blk = -1 -> lastBlockedAt (cs_fc s1) = lastBlockedAt (cs_fc s)) /\
+  sendWindow (cs_fc s1) = sendWindow (cs_fc s).
+Proof. exact drain_stream_exact. Qed.
+Print Assumptions C04_connglue_blocked_at_limit.
